@@ -21,7 +21,7 @@ Proof.
     injection H as <-. constructor; [exact Hy|now apply IH].
 Qed.
 
-Lemma Forall2_length' : forall (A B : Type) (R : A -> B -> Prop) l r, Forall2 R l r -> length l = length r.
+Lemma Forall2_length' : forall (A B : Type) (R : A -> B -> Prop) l r, Forall2 R l r -> List.length l = List.length r.
 Proof. induction 1; cbn; congruence. Qed.
 
 (** ================================================================================================
@@ -81,7 +81,7 @@ Lemma file_list_add_symbol : forall S k e in_list in_pos logged S' f,
     (if in_list then (if fr_file (e_def e) =? f then [(k, logged)] else []) else []).
 Proof.
   intros S k e in_list in_pos logged S' f H. unfold add_symbol, alloc in H.
-  apply sbind_ok in H. destruct H as ([] & Hc & H).
+  apply sbind_ok in H. destruct H as (u & Hc & H).
   unfold check_id in Hc. destruct (logged =? next_id S k) eqn:E; [|discriminate]. apply N.eqb_eq in E.
   set (S1 := set_arena S k (get_arena S k ++ [e])) in *.
   assert (file_list S1 f = file_list S f) as H1 by (unfold file_list, S1; now rewrite file_syms_set_arena).
@@ -153,11 +153,11 @@ Proof.
     (* nothing was pushed for f, so the map is unchanged at f: contradiction with Hl *)
     assert (fmap_get (sm_file_syms S') f = None) as Hn; [|congruence].
     clear Hl Hok. unfold pushed in E.
-    assert (forall S1 k e il ip lg, fmap_get (sm_file_syms S1) f = None ->
-            (if il then (if fr_file (e_def e) =? f then [(k, lg)] else []) else []) = @nil symbol_id ->
+    assert (forall S1 (k : sym_kind) (e : entry) (il ip : bool) (lg : N), fmap_get (sm_file_syms S1) f = None ->
+            (if il then (if fr_file (e_def e) =? f then [((k, lg) : symbol_id)] else []) else []) = [] ->
             add_symbol S1 k e il ip lg = SOk S' -> fmap_get (sm_file_syms S') f = None) as Hadd.
     { intros S1 k e il ip lg N1 Hp Ha. unfold add_symbol, alloc in Ha.
-      apply sbind_ok in Ha. destruct Ha as ([] & _ & Ha).
+      apply sbind_ok in Ha. destruct Ha as (u & _ & Ha).
       assert (fmap_get (sm_file_syms (if il then push_file_sym (set_arena S1 k (get_arena S1 k ++ [e])) (fr_file (e_def e)) (k, next_id S1 k)
                                       else set_arena S1 k (get_arena S1 k ++ [e]))) f = None) as N2.
       { destruct il.
@@ -167,10 +167,18 @@ Proof.
       destruct ip; [apply file_syms_add_to_pos in Ha; now rewrite Ha|now injection Ha as <-]. }
     destruct o; cbn [apply_op global_of] in *;
       try (apply file_syms_with_cur in H; now rewrite H);
-      try (apply file_syms_borrow in H; now rewrite H);
-      try (eapply Hadd; [exact E0| |exact H]; cbn [e_def]; try reflexivity; auto; fail).
-    + destruct k; (eapply Hadd; [|  |exact H]; [exact E0|cbn [e_def]; destruct is_global; auto]).
-    + eapply Hadd; [exact E0| |exact H]. cbn [e_def]. destruct is_global; auto.
+      try (apply file_syms_borrow in H; now rewrite H).
+    + destruct k, is_global; cbn in E;
+        (eapply Hadd; [ | |exact H]; [cbn; exact E0|cbn [e_def]; first [reflexivity|symmetry; exact E]]).
+    + eapply Hadd; [ | |exact H]; [cbn; exact E0|reflexivity].
+    + eapply Hadd; [ | |exact H]; [cbn; exact E0|reflexivity].
+    + eapply Hadd; [ | |exact H]; [cbn; exact E0|reflexivity].
+    + eapply Hadd; [ | |exact H]; [cbn; exact E0|cbn [e_def]; symmetry; exact E].
+    + eapply Hadd; [ | |exact H]; [cbn; exact E0|cbn [e_def]; symmetry; exact E].
+    + eapply Hadd; [ | |exact H]; [cbn; exact E0|cbn [e_def]; symmetry; exact E].
+    + destruct is_global; cbn in E;
+        (eapply Hadd; [ | |exact H]; [cbn; exact E0|cbn [e_def]; first [reflexivity|symmetry; exact E]]).
+    + eapply Hadd; [ | |exact H]; [cbn; exact E0|reflexivity].
     + destruct (get_entry S s); [|discriminate]. apply file_syms_add_to_pos in H. rewrite H.
       unfold update_entry. now rewrite file_syms_set_arena.
     + now injection H as <-.
